@@ -6,6 +6,15 @@
 //! lexer, outcome class); there the verified verdict `chk_outcome` (outcome is a value or an error)
 //! is applied and, where the token-level model of ParsePanic.v covers the input, the model's
 //! outcome class is compared with the implementation's.
+//!
+//! Composition cases (`CBytes`, description prefix `Bytes:`; see `Ctx::observe_comp`): for a sample
+//! of the texts the UTF-8 bytes are shipped together with the ParsePanic token list derived from the
+//! REAL token stream and the real outcome; coq/Model/LexParse.v lexes the bytes with the byte-level
+//! lexer model, converts the tokens with `conv` (the Gallina counterpart of `quilgen::tok_to_coq`),
+//! requires the result to EQUAL the shipped list (code 4) and compares the composed model's outcome
+//! (incl. the DEF* grammar, `run_full`) with the real one (code 1).  All other cases are wrapped in
+//! `CBase` and additionally judged by `run_full` where `run` answers "not modelled" (DEF* commands).
+//! Mutants 9 (swallowed lex error), 10 (definition without colon accepted), 11 (`mut` not a keyword).
 #[path = "../quilgen.rs"]
 mod quilgen;
 
@@ -96,8 +105,24 @@ impl Ctx {
                 4 if entry == 2 && ts.len() == 3 && ts[0] == "OPERATOR(-)" && ts[1] == "OPERATOR(-)" && ts[2].starts_with("INTEGER") => out = Out::Ok,
                 // 5: off-by-one in the operand range check: `MOVE ro 9223372036854775808` accepted
                 5 if entry <= 1 && ts.len() == 3 && ts[0] == "COMMAND(MOVE)" && ts[2] == "INTEGER(9223372036854775808)" => out = Out::Ok,
+                // 10: DEFCIRCUIT / DEFCAL accept a definition whose colon is missing
+                10 if entry <= 1 && ts.len() >= 3 && (ts[0] == "COMMAND(DEFCIRCUIT)" || ts[0] == "COMMAND(DEFCAL)") && !ts.contains(&"COLON") && out == Out::Err => out = Out::Ok,
                 _ => {}
             }
+        }
+        let mut toks = toks;
+        match (self.mutant, &mut toks) {
+            // 9: a lex error is swallowed, the program entry point returns an empty program
+            (9, None) if entry == 0 && out == Out::Err => out = Out::Ok,
+            // 11: the keyword table lost `mut`: it is lexed as an ordinary identifier
+            (11, Some(t)) => {
+                for x in t.iter_mut() {
+                    if x == "mut" {
+                        *x = "IDENTIFIER(mut)".to_string();
+                    }
+                }
+            }
+            _ => {}
         }
         (out, msg, toks)
     }
@@ -119,13 +144,49 @@ impl Ctx {
         out
     }
 
+    /// Observe `text` at `entry` once and ship it twice: as a single case (real token stream +
+    /// outcome, judged by the token-level parser model) and as a composition case `CBytes` (the
+    /// text's bytes + the same abstraction of the real token stream + outcome), judged in Coq by
+    /// `LexParse.bytes_code`: the byte-level lexer model followed by `conv` must reproduce the
+    /// shipped token list exactly (code 4 otherwise), and the composed model `parse_bytes_full`
+    /// must have the observed outcome class (lex error = the entry point returns an error).
+    fn observe_comp(&mut self, entry: usize, text: &str, class: &str) -> Out {
+        let (out, msg, toks) = self.observed(entry, text);
+        self.ship_single(entry, text, class, out, &msg, toks.as_ref());
+        if text.len() > 400 {
+            self.run.count("composition:skipped-longer-than-400-bytes");
+            return out;
+        }
+        let tl = match toks.as_ref() {
+            None => "None".to_string(),
+            Some(t) => match toks_to_coq(t) {
+                Some(l) => format!("(Some {l})"),
+                None => {
+                    self.run.process_failure(&format!("harness cannot abstract the token stream {t:?}"), text, None);
+                    return out;
+                }
+            },
+        };
+        let bytes: Vec<String> = text.as_bytes().iter().map(|b| b.to_string()).collect();
+        let coq = format!("CBytes {} [{}] {} {}", ENTRIES[entry], bytes.join(";"), tl, out_coq(out));
+        let desc = format!("Bytes:{} {:?}", &ENTRIES[entry][1..], text);
+        self.run.count(&format!("composition:{class}:{}", if toks.is_some() { out_coq(out) } else { "lex-error" }));
+        if let Some(t) = toks.as_ref() {
+            if t.iter().any(|x| x.starts_with("COMMAND(DEF")) {
+                self.run.count(&format!("composition:with-definition:{}", out_coq(out)));
+            }
+        }
+        self.run.case(coq, &desc, toks.is_some(), None);
+        out
+    }
+
     fn ship_single(&mut self, entry: usize, text: &str, class: &str, out: Out, msg: &str, toks: Option<&Vec<String>>) {
         let known = known_class(toks, out, msg);
         let tl = toks.and_then(|t| toks_to_coq(t)).map(|l| format!("(Some {l})"));
         if toks.is_none() {
             self.run.count("lex-error");
         }
-        let coq = format!("CSingle {} {} {}", ENTRIES[entry], tl.unwrap_or_else(|| "None".into()), out_coq(out));
+        let coq = format!("CBase (CSingle {} {} {})", ENTRIES[entry], tl.unwrap_or_else(|| "None".into()), out_coq(out));
         let desc = format!("{} {:?}", &ENTRIES[entry][1..], text);
         self.tally(class, out, msg, &desc);
         // non-trivial: the lexer accepted the text (the parser proper was exercised)
@@ -168,7 +229,7 @@ impl Ctx {
             .map(|(k, o)| format!("({k}, {})", out_coq(o.1)))
             .collect();
         let coq = format!(
-            "CGroup {} {alpha_id} {} {} [{}]",
+            "CBase (CGroup {} {alpha_id} {} {} [{}])",
             ENTRIES[entry],
             toks_to_coq(ptoks.as_ref().unwrap()).expect("prefix tokens"),
             out_coq(default),
@@ -478,7 +539,7 @@ mod lexsec {
         if !text.is_ascii() {
             cx.run.count(&format!("lexer-bytes:non-ascii:{tag}"));
         }
-        cx.run.case(format!("CLex {} {}", bytes_coq(text.as_bytes()), coq_obs), &desc, nontrivial, None);
+        cx.run.case(format!("CBase (CLex {} {})", bytes_coq(text.as_bytes()), coq_obs), &desc, nontrivial, None);
     }
 
     /// all strings of exactly `len` characters over LEX_ALPHA
@@ -609,6 +670,7 @@ fn main() {
     if let Some(case) = &args.replay {
         // description format: `<Entry> "<text as Rust debug string>"`
         println!("replay: {case}");
+        let case = case.strip_prefix("Bytes:").unwrap_or(case);
         if let Some((e, t)) = case.split_once(' ') {
             let text: String = serde_json::from_str(t).unwrap_or_else(|_| t.trim_matches('"').to_string());
             let entry = ENTRIES.iter().position(|x| &x[1..] == e).unwrap_or(0);
@@ -629,12 +691,12 @@ fn main() {
         format!("[{}]", v.join("; "))
     };
     let header = format!(
-        "From Coq Require Import List NArith ZArith.\nFrom QV Require Import Model.ParsePanic Model.Lex.\nImport ListNotations.\nOpen Scope N_scope.\n\
+        "From Coq Require Import List NArith ZArith.\nFrom QV Require Import Model.ParsePanic Model.Lex Model.LexParse.\nImport ListNotations.\nOpen Scope N_scope.\n\
          Definition alpha_main_check : alpha_main = {} := eq_refl.\nDefinition alpha_expr_check : alpha_expr = {} := eq_refl.",
         alpha_coq(&ALPHA),
         alpha_coq(&EXPR_ALPHA)
     );
-    let run = Run::new(&args.out, &header, "case", "failing", 2500);
+    let run = Run::new(&args.out, &header, "case2", "failing2", 2500);
     let mut cx = Ctx { run, mutant, panics: 0 };
     let thorough = args.thorough();
     let mut rng = Rng::new(args.seed);
@@ -764,8 +826,8 @@ fn main() {
     for kind in 0..quilgen::N_KINDS {
         for _ in 0..per_kind {
             let t = quilgen::instr_text(&mut rng, kind);
-            let o = cx.observe(0, &t, "valid-instr");
-            cx.observe(1, &t, "valid-instr-entry");
+            let o = cx.observe_comp(0, &t, "valid-instr");
+            cx.observe_comp(1, &t, "valid-instr-entry");
             if o == Out::Ok {
                 cx.run.count(&format!("valid-kind-{kind}-accepted"));
             }
@@ -775,20 +837,29 @@ fn main() {
     for _ in 0..(if thorough { 2000 } else { 300 }) {
         let n = rng.range(2, 8);
         let t = quilgen::program_text(&mut rng, n);
-        cx.observe(0, &t, "valid-program");
+        cx.observe_comp(0, &t, "valid-program");
         valid_texts.push(t);
     }
-    for _ in 0..(if thorough { 8000 } else { 1500 }) {
+    for k in 0..(if thorough { 8000 } else { 1500 }) {
         let d = rng.below(5);
         let t = quilgen::expr_text(&mut rng, d);
-        cx.observe(2, &t, "valid-expression");
+        if k % 4 == 0 {
+            cx.observe_comp(2, &t, "valid-expression");
+        } else {
+            cx.observe(2, &t, "valid-expression");
+        }
         cx.observe(0, &format!("RX({t}) 0"), "valid-expression-in-gate");
     }
-    for _ in 0..(if thorough { 2000 } else { 400 }) {
+    for k in 0..(if thorough { 2000 } else { 400 }) {
         let t = quilgen::memref_text(&mut rng);
-        cx.observe(3, &t, "valid-memref");
         let f = format!("{} \"xy\"", rng.below(9));
-        cx.observe(4, &f, "valid-frame");
+        if k % 4 == 0 {
+            cx.observe_comp(3, &t, "valid-memref");
+            cx.observe_comp(4, &f, "valid-frame");
+        } else {
+            cx.observe(3, &t, "valid-memref");
+            cx.observe(4, &f, "valid-frame");
+        }
         cx.observe(4, &t, "memref-as-frame");
     }
 
@@ -800,9 +871,17 @@ fn main() {
         if rng.chance(1, 4) {
             t = quilgen::mutate(&mut rng, &t);
         }
-        cx.observe(0, &t, "mutated");
+        if k % 8 == 0 {
+            cx.observe_comp(0, &t, "mutated");
+        } else {
+            cx.observe(0, &t, "mutated");
+        }
         if k % 3 == 0 {
-            cx.observe(1 + (k / 3) % 4, &t, "mutated-other-entry");
+            if k % 30 == 0 {
+                cx.observe_comp(1 + (k / 3) % 4, &t, "mutated-other-entry");
+            } else {
+                cx.observe(1 + (k / 3) % 4, &t, "mutated-other-entry");
+            }
         }
     }
     // (3b) multi-byte UTF-8: the lexer slices by byte offset, so every string / comment / name
@@ -828,7 +907,11 @@ fn main() {
             t.push_str(" # ");
             t.push_str(WIDE[rng.below(WIDE.len())]);
         }
-        cx.observe(0, &t, "multibyte");
+        if k % 8 == 0 {
+            cx.observe_comp(0, &t, "multibyte");
+        } else {
+            cx.observe(0, &t, "multibyte");
+        }
         if k % 2 == 0 {
             cx.observe(1 + (k / 2) % 4, &t, "multibyte-other-entry");
         }
@@ -841,7 +924,8 @@ fn main() {
             format!("LABEL @{w}"), format!("DECLARE {w} BIT"), format!("DELAY 0 \"a{w}\" \"{w}b\" 1.0"),
             format!("0 \"{w}\""), format!("0 1 \"x{w}y\""), format!("r{w}[0]"), format!("%{w}+1"), format!("\"{w}"),
         ] {
-            for e in 0..5 {
+            cx.observe_comp(0, &t, "multibyte-corpus");
+            for e in 1..5 {
                 cx.observe(e, &t, "multibyte-corpus");
             }
         }
@@ -856,7 +940,7 @@ fn main() {
         " ", "\t", "\n\n\n", ";;;", "X 0 # c", "    # c", "\t\t# c\nX 0", "DEFGATE", "DEFCAL", "DEFFRAME 0 \"x\":",
     ] {
         for e in 0..5 {
-            cx.observe(e, t, "corpus");
+            cx.observe_comp(e, t, "corpus");
         }
     }
 
@@ -908,7 +992,12 @@ fn main() {
          with the byte-level lexer model: exhaustive strings of <= 3 (thorough 4) characters over a 24-character \
          alphabet (2- and 3-byte characters, quote, backslash, hash, separators, sigils, digits, letters, CR), all \
          pairs of 82 pieces, every reserved word perturbed, sampled piece concatenations, valid / mutated / \
-         multi-byte texts; non-trivial = at least one token.",
+         multi-byte texts; non-trivial = at least one token. \
+         Composition cases (`Bytes:<Entry> <text>`): bytes + the ParsePanic token list derived from the real token \
+         stream + real outcome, for every valid instruction / program, a quarter of the expression / memory-reference / \
+         frame texts, an eighth of the mutated and multi-byte texts and the corpora (texts <= 400 bytes); judged by the \
+         lexer model composed with conv and the parser models (DEF* grammar included); non-trivial = the real lexer \
+         accepts the text.",
         true,
         serde_json::json!({"exhaustive_cmd_first_texts": exhaustive, "exhaustive_expression_texts": expr_exh,
             "panics_observed": panics, "nesting": nest_report, "mutant": mutant,
